@@ -171,6 +171,32 @@ class Gen:
             return ("for", f"{it} = 0", f"{it} < {guard}", f"{it}++", ("block", body), it, guard, False)
         return ("while", self.cond(), ("block", body))
 
+    def for_accumulate(self):
+        """a counted for loop (fresh guard) whose body feeds one or two choice-bearing operations into a loop-carried
+        accumulation: cells with several p-monomials that differ in their deltas, so the L rule matters at every choice"""
+        vs = list(self.vars)
+        self.r.shuffle(vs)
+        acc = vs[0]
+        others = vs[1:] or vs
+        body = []
+        n = self.r.choice([1, 2, 2])
+        tmp = None
+        for k in range(n):
+            if self.sites >= self.c.max_sites - 1:
+                break
+            self.sites += 1
+            tmp = self.r.choice(others)
+            a, b = self.r.choice(vs), self.r.choice(others)
+            body.append(("s", f"{tmp} = {a} {self.r.choice(['+', '+', '*'])} {b};"))
+        self.sites += 1
+        src = tmp if tmp is not None else self.r.choice(others)
+        body.append(("s", f"{acc} = {acc} + {src};" if self.r.random() < 0.6 else f"{acc} = {src} + {acc};"))
+        if self.r.random() < 0.3:
+            body.append(("s", f"{self.r.choice(others)} = {acc};"))
+        self.fresh += 1
+        it, guard = f"i{self.fresh}", f"n{self.fresh}"
+        return ("for", f"{it} = 0", f"{it} < {guard}", f"{it}++", ("block", body), it, guard, False)
+
     def tight_cycle(self):
         """a loop whose 2-3 assignments multiply/add a small set of variables in a cycle: often no derivation at all,
         and frequently in a way the delta graph does not detect (the verdict then comes from the choice evaluation)"""
@@ -206,6 +232,8 @@ class Gen:
             ss += [self.chain_loop()]
         elif b == "tight-cycle":
             ss += self.tight_cycle()
+        elif b == "for-accumulate":
+            ss += [self.for_accumulate()]
         elif b == "loops-in-branches":
             ss += [("if", self.cond(), ("block", [self.stmt(1), self.loop(1)]), ("block", [self.loop(1), self.stmt(1)]))]
             ss += [self.loop(0)]
